@@ -760,6 +760,10 @@ func runStream(c *core.Case, tc *transferCase, k int, p *libPair, disp map[strin
 					}
 					if !rds[1-r].waitCount(need, hardLimit) {
 						select {
+						case <-rds[1-r].done:
+							// the peer's reader has ended (its side closed the stream
+							// meanwhile): nothing to wait for
+							return nil
 						case <-p.dead:
 						default:
 							if sp.Carrier == "iq" && parkedReader(rds[1-r], "checkpoint: %d bytes were flushed and acknowledged, the reader has %d", off, rds[1-r].count()) {
